@@ -84,16 +84,25 @@ def gen_edges(rng, n, shape):
     return e
 
 
+def _sum_lines(first, terms, indent):
+    """a sum over many terms, one continuation line per term (keeps lines short)"""
+    lines = [first + (' &' if terms else '')]
+    for n, t in enumerate(terms):
+        lines.append(f'{indent}  & + {t}' + (' &' if n < len(terms) - 1 else ''))
+    return lines
+
+
 def module_text(name, uses, const, extra_comment=''):
     lines = [f'module {name}']
     for u in uses:
         lines.append(f'  use {u}, only: k_{u}, f_{u}')
     lines.append('  implicit none')
-    ksum = ''.join(f' + k_{u}' for u in uses)
-    lines.append(f'  integer, parameter :: k_{name} = {const}{ksum}{extra_comment}')
-    lines += ['contains', f'  function f_{name}(x) result(y)', '    integer, intent(in) :: x', '    integer :: y',
-              f'    y = x * {const % 7 + 1} + k_{name}' + ''.join(f' + f_{u}(x)' for u in uses),
-              f'  end function f_{name}', f'end module {name}']
+    if extra_comment:
+        lines.append(f'  {extra_comment.strip()}')
+    lines += _sum_lines(f'  integer, parameter :: k_{name} = {const}', [f'k_{u}' for u in uses], '  ')
+    lines += ['contains', f'  function f_{name}(x) result(y)', '    integer, intent(in) :: x', '    integer :: y']
+    lines += _sum_lines(f'    y = x * {const % 7 + 1} + k_{name}', [f'f_{u}(x)' for u in uses], '    ')
+    lines += [f'  end function f_{name}', f'end module {name}']
     return lines
 
 
@@ -151,9 +160,9 @@ def gen_case(rng, idx):
         else:
             lines = [f"subroutine {u['stem']}(x, y)"]
             lines += [f'  use {m}, only: k_{m}, f_{m}' for m in uses]
-            lines += ['  implicit none', '  integer, intent(in) :: x', '  integer, intent(out) :: y',
-                      f'  y = {const}' + ''.join(f' + f_{m}(x) + k_{m}' for m in uses),
-                      f"end subroutine {u['stem']}"]
+            lines += ['  implicit none', '  integer, intent(in) :: x', '  integer, intent(out) :: y']
+            lines += _sum_lines(f'  y = {const}', [f'f_{m}(x) + k_{m}' for m in uses], '  ')
+            lines.append(f"end subroutine {u['stem']}")
         if rng.random() < 0.3:
             lines.insert(0, f'! generated unit {u["i"]} of case {idx}')
         files[u['file']] = '\n'.join(lines) + '\n'
@@ -477,6 +486,7 @@ def _run_case(idx, rng, tier, case, wd, src):
                      'total_order': forced, 'library_members': len(lib_stems), 'parallel_builds': cnt['parallel_builds'],
                      'distinct_interleavings': len(interleavings),
                      'example_interleavings': [' '.join(f'{p}:{k.split("q")[0]}' for p, k in il) for il in ex]}
+    res['sample']['loki'] = parlab.LAST_LOKI_FILE
     res['counters'] = dict(cnt)
     return res
 
